@@ -169,7 +169,8 @@ Print Assumptions C11_agent_output_directive.
 
 (* input_staged (agent side; copy and link directives -- moves and tarballs are
    covered per directive above and by the correspondence): when the stager
-   succeeds on a list with pairwise different targets, every directive was
+   succeeds on a list with pairwise different targets (special case of the
+   last-writer theorems below, which need no such hypothesis), every directive was
    carried out and every target still holds what was written to it *)
 Theorem C11_input_staged_partial :
   forall t l fs,
@@ -201,6 +202,58 @@ Theorem C11_transfer_staged_partial :
     Forall (fun ec => file_at (fst ec) (h_fs (copy_all tar l fs [])) = Some (snd ec)) (h_log (copy_all tar l fs [])).
 Proof. exact copy_all_persist. Qed.
 Print Assumptions C11_transfer_staged_partial.
+
+(* ---- overwrites: the last writer of a path determines its content ----
+   No hypothesis on the targets (they may collide, the path may hold a file
+   before): when the stager succeeds on a list of copy/link/transfer directives,
+   every directive was carried out and every path holds what the LAST directive
+   writing it put there (the content its source had when it ran, by
+   C11_action_staged / C11_agent_*_directive); paths nobody wrote keep their
+   content. *)
+Theorem C11_input_last_writer :
+  forall t l fs,
+    forallb keeps l = true -> h_ok (agent_si_steps t l fs []) = true ->
+    List.length (h_log (agent_si_steps t l fs [])) = List.length l /\
+    forall q, file_at q (h_fs (agent_si_steps t l fs [])) =
+              match last_write q (h_log (agent_si_steps t l fs [])) with Some c => Some c | None => file_at q fs end.
+Proof. exact agent_input_last_writer. Qed.
+Print Assumptions C11_input_last_writer.
+
+Theorem C11_output_last_writer :
+  forall t l fs,
+    forallb keeps l = true -> h_ok (agent_so_steps t l fs []) = true ->
+    List.length (h_log (agent_so_steps t l fs [])) = List.length l /\
+    forall q, file_at q (h_fs (agent_so_steps t l fs [])) =
+              match last_write q (h_log (agent_so_steps t l fs [])) with Some c => Some c | None => file_at q fs end.
+Proof. exact agent_output_last_writer. Qed.
+Print Assumptions C11_output_last_writer.
+
+Theorem C11_transfer_last_writer :
+  forall tar l fs,
+    no_tar l = true -> h_ok (copy_all tar l fs []) = true ->
+    List.length (h_log (copy_all tar l fs [])) = List.length l /\
+    forall q, file_at q (h_fs (copy_all tar l fs [])) =
+              match last_write q (h_log (copy_all tar l fs [])) with Some c => Some c | None => file_at q fs end.
+Proof. exact copy_all_last_writer. Qed.
+Print Assumptions C11_transfer_last_writer.
+
+(* non-vacuity of the above: two tasks, one after the other, copy different
+   data to the same pilot:///shared/params.dat, a third directive replaces a
+   file that existed before *)
+Example C11_overwrite_nonvacuous :
+  let '(_, fs', fin) := run_bulks
+    [ [ {| ti_uid := "t0"; ti_sb := ex_sb "t0";
+           ti_in := [ SDict (Some "client:///a.dat") (Some "pilot:///shared/params.dat") (Some Transfer) false ];
+           ti_out := []; ti_soe := false; ti_outcome := DONE; ti_exec := [] |} ];
+      [ {| ti_uid := "t1"; ti_sb := ex_sb "t1";
+           ti_in := [ SDict (Some "client:///b.dat") (Some "pilot:///shared/params.dat") (Some Transfer) false;
+                      SStr "a.dat > pilot:///sh.dat" ];
+           ti_out := []; ti_soe := false; ti_outcome := DONE; ti_exec := [] |} ] ] ex_fs in
+  ( file_at ["R"; "rsb"; "s1"; "p0"; "shared"; "params.dat"] fs',
+    file_at ["R"; "rsb"; "s1"; "p0"; "sh.dat"] fs',
+    map (fun t => (t_uid t, last (t_pub t) DONE)) fin )
+  = ( Some (Plain 2), Some (Plain 1), [ ("t0", DONE); ("t1", DONE) ] ).
+Proof. vm_compute. reflexivity. Qed.
 
 (* ---- failed tasks ---- *)
 
